@@ -1,1 +1,47 @@
-From Arche Require Import Model.Base.
+(** C09 - World lock: held exactly while queries are open; blocks every structural change.
+    Statements only; proofs in Proofs/Locks.v (lock mask and bit pool, all histories of
+    lock/unlock requests) and Proofs/LockWorld.v (structural operations under a lock). *)
+From Arche Require Import Model.Base Model.Pool Model.World Model.Ops Proofs.Locks Proofs.LockWorld.
+
+(** For every history of lock and unlock requests on a lock mask of [tb] bits: the world
+    is locked exactly while some lock is held, no bit is held twice, at most [tb] are held,
+    and a further lock succeeds exactly while fewer than [tb] are held (for any number of
+    lock/unlock cycles before). *)
+Theorem C09_lock_history : forall tb ops,
+  let '(l, held) := lrun tb (locks_init tb) [] ops in
+  (exists frees, lock_inv tb l held frees) /\
+  (locks_locked l = true <-> held <> []) /\ NoDup held /\ length held <= tb /\
+  (is_Some (locks_lock tb l) <-> length held < tb).
+Proof. exact lock_history. Qed.
+
+(** A lock request returns a bit that is not held; an unlock releases exactly the given
+    bit, and a bit that is not held is refused (released exactly once). *)
+Theorem C09_lock : forall tb l held frees, lock_inv tb l held frees ->
+  match locks_lock tb l with
+  | Some (l', b) => length held < tb /\ b ∉ held /\ b < tb /\ exists frees', lock_inv tb l' (b :: held) frees'
+  | None => length held = tb
+  end.
+Proof. exact lock_spec. Qed.
+Theorem C09_unlock : forall tb l held frees b, lock_inv tb l held frees ->
+  match locks_unlock l b with
+  | Some l' => b ∈ held /\ lock_inv tb l' (filter (fun x => x <> b) held) (b :: frees)
+  | None => b ∉ held
+  end.
+Proof. exact unlock_spec. Qed.
+
+(** While locked, every structural operation panics and returns the world itself. *)
+Theorem C09_locked_rejects : forall w o,
+  is_locked w = true -> structural o = true -> step w o = (w, Panic, []).
+Proof. exact locked_rejects. Qed.
+
+(** Registering a new component type in a locked world panics with the world unchanged
+    (the registry is rolled back); known types are still resolved. *)
+Theorem C09_register_locked : forall w key isrel zs,
+  is_locked w = true ->
+  step w (ORegister key isrel zs) = (w, Panic, []) \/
+  exists id, step w (ORegister key isrel zs) = (w, Ok (VNat id), []) /\
+             (exists c, w_reg w !! id = Some c /\ ci_key c = key).
+Proof. exact register_locked. Qed.
+
+Print Assumptions C09_lock_history.
+Print Assumptions C09_locked_rejects.
